@@ -883,6 +883,9 @@ class Interp:
             except KeyError:
                 pass
         v = B.builtin_name(self, e.id)
+        if v is UNBOUND and e.id == '__file__' and env.module is not None:
+            # the module's own path: some absolute path ending in the module's file name (installation prefix unknown)
+            return '/<site>/' + env.module.dotted.replace('.', '/') + '.py'
         if v is UNBOUND:
             raise Unsupported('unknown name %s at line %s' % (e.id, getattr(e, 'lineno', '?')))
         return v
